@@ -711,7 +711,8 @@ var trustedNonNegCalls = map[string]string{
 
 // trustedNonNegFields: struct fields that only ever hold values decoded from QUIC varints (0..2^62-1).
 var trustedNonNegFields = map[string]string{
-	"Length": "wire.Header.Length = ByteCount(varint)",
+	"Length":            "wire.Header.Length = ByteCount(varint)",
+	"shortHdrConnIDLen": "packetUnpacker.shortHdrConnIDLen: the endpoint's own connection-ID length (0..20), passed to newPacketUnpacker once",
 }
 
 // trustedNonNegParams: integer parameters that are the endpoint's own configuration, not wire input.
